@@ -9,11 +9,14 @@
 
    C11_LIMITS: (1) shred and rayon are outside /repo: modelled and compared with
    the real DispatcherBuilder (exact stage/group tree) and the real dispatch
-   (enter/exit logs), not verified.  (2) A system's fetch is one atomic event;
-   the real fetch takes its borrows one by one.  (3) Thread-local systems and
-   batch dispatchers are not modelled. *)
+   (enter/exit logs), not verified.  (2) Exactly-once, dependency order and
+   no-overlap are stated on traces with one start and one end event per system;
+   "no borrow is ever refused" is proved both there and on traces where every
+   single res.fetch()/fetch_mut() and every single drop is its own event
+   (C11_borrow_never_refused_fine).  (3) Thread-local systems and batch
+   dispatchers are not modelled. *)
 From SV Require Import Dispatch.Stage Dispatch.Borrow Dispatch.Exec Dispatch.StageInv Dispatch.BorrowInv
-  Dispatch.ExecInv Checkers.DispatchChk.
+  Dispatch.ExecInv Dispatch.FineExec Dispatch.FineInv Checkers.DispatchChk.
 From Coq Require Import Permutation.
 
 (* ---- the stage list built from any sequence of add / add_barrier ---- *)
@@ -84,6 +87,16 @@ Theorem C11_all_steps_safe : forall os, d_stuck (d_build os) = false ->
   safe_run m_init tr /\ m_stuck (m_run m_init tr) = false /\ m_running (m_run m_init tr) = [].
 Proof. exact dispatch_safe. Qed.
 
+(* the same at the granularity of single borrows: the groups of a stage
+   interleave between any two res.fetch()/fetch_mut() calls of a system's
+   fetch and between any two drops; no borrow is refused and nothing that is
+   not held is released, at any point of any such schedule *)
+Theorem C11_borrow_never_refused_fine : forall os, d_stuck (d_build os) = false ->
+  (forall s, In s (d_systems 0 os) -> self_ok s) ->
+  forall tr p q, fstages_trace (b_stages (d_sb (d_build os))) tr -> tr = p ++ q ->
+  f_run (Some bs_init) p <> None.
+Proof. exact fine_never_refused. Qed.
+
 (* ---- the specs handles ---- *)
 
 (* what a handle's fetch borrows is exactly what it declares *)
@@ -144,6 +157,7 @@ Print Assumptions C11_dependencies_complete_first.
 Print Assumptions C11_no_conflicting_overlap.
 Print Assumptions C11_borrow_never_refused.
 Print Assumptions C11_all_steps_safe.
+Print Assumptions C11_borrow_never_refused_fine.
 Print Assumptions C11_decl_matches_fetch.
 Print Assumptions C11_decl_matches_fetch_tuple.
 Print Assumptions C11_fetch_then_probe.
